@@ -431,6 +431,7 @@ func flattenAdd(v ssa.Value) ([]ssa.Value, int64) {
 
 func C11(c *Ctx) {
 	c.Note("that compaction never drops or resurrects a version (value reasoning); crash/reopen cycles; the C01 tie-break")
+	compactionOutcomeGroup(c, "K2.compaction-outcome-reported-truthfully")
 	const r1 = "K3.background-cannot-write"
 	c.Rule(r1, "from the background roots (memtable flush, compaction, WAL watchdog, stats, prefetch) no user-data write entry point (DB.batchSet, DB.sendToWriteCh, LSM.Set, LSM.SetBatch, memTable.Set/setBatch, wal.Manager.Append) is reachable in the call graph (VTA); from the value-log GC root they are reachable only through valueLog.rewrite → DB.batchSet")
 	sinks := map[*ssa.Function]string{}
